@@ -177,3 +177,9 @@ package keeper
 //@     && resp.Inflation == infl(cur($minterParams, $minterState.SequenceId), startOf($minterParams, $minterState.SequenceId), $blockTime, $supply[$minterParams.MintDenom])
 //@   ensures req == nil || !hasMinter($minterParams, $minterState.SequenceId) ==> err != nil
 //@   prop C19
+
+//@ // ---- declared effects (checked per call instruction by the effect checker; anything not listed is effect-free) ----
+//@ effects Keeper.Mint bank.mint bank.send
+//@ effects Keeper.MintCoins bank.mint
+//@ effects Keeper.SendMintedCoins bank.send
+//@ effects Keeper.mint bank.mint bank.send
